@@ -64,7 +64,7 @@ def post_solve_ops(rng, plan, k=4):
 class C02(Prop):
     id = "C02"
     level = "exploration"
-    RUNS = {"quick": 900, "thorough": 16000}
+    RUNS = {"quick": 1800, "thorough": 16000}
     BUDGET = {"quick": 80, "thorough": 900}
     ORACLES = ("O-ATTR-PRIMAL", "O-HANDLES", "O-PRIMAL")
     RULE = ("seeded sessions (template model + decorations + 1-2 solves, transports cvxpy / stand-in MOSEK / fall-backs, "
